@@ -260,7 +260,6 @@ func (e *Engine) expandChoices(st *State, vs []Value, k func(st *State, vs []Val
 			}
 			s2 := st.clone()
 			s2.assume(al.cond)
-			s2.splits++
 			nv := append([]Value(nil), vs...)
 			nv[i] = al.v
 			outs = append(outs, e.expandChoices(s2, nv, k)...)
